@@ -1,0 +1,33 @@
+//go:build verif
+
+package build
+
+import "go/ast"
+
+// VerifAugment runs the augmentation pipeline of parseAndAugment on already
+// parsed files: everything parseAndAugment does after parseOverlayFiles and
+// parserOriginalFiles returned, calling the real unexported functions in the
+// same order. Only the glue between them is replicated here; the verification
+// harness cross-checks this replica against Session.LoadPackages.
+//
+// The given files are modified in place. The returned slice has the order
+// parseAndAugment returns: overlay files first, then original files.
+func VerifAugment(importPath string, overlay, original []*ast.File) []*ast.File {
+	overrides := make(map[string]overrideInfo)
+	for _, file := range overlay {
+		augmentOverlayFile(file, overrides)
+	}
+	delete(overrides, "init")
+
+	for _, file := range original {
+		augmentOriginalImports(importPath, file)
+	}
+
+	if len(overrides) > 0 {
+		for _, file := range original {
+			augmentOriginalFile(file, overrides)
+		}
+	}
+
+	return append(overlay[:len(overlay):len(overlay)], original...)
+}
